@@ -24,6 +24,11 @@
   section, not only for the canonical encodings.  The slices enter `accepted_rewrite` with the
   hypothesis that their sizes are within the limits (TSFits): that the byte-size header of a
   re-written string array fits an int is a property of the input size, not of the reader.
+  (7) `accepted_file_rewrite` removes that hypothesis too (Lemmas/PostSlice.lean: postconditions
+  of sbdf_va_read / sbdf_cs_read / sbdf_ts_read on arbitrary input): for EVERY byte string the
+  readers accept to the end, assuming only that the byte-size headers to be written fit an int
+  and that no stored property count is negative, the in-memory form is stable under
+  serialisation.
 -/
 import Sbdf.Props.C03
 import Sbdf.Props.C04
@@ -32,6 +37,7 @@ import Sbdf.Props.C01
 import Sbdf.Lemmas.FirstApp
 import Sbdf.Props.C15
 import Sbdf.Lemmas.Post
+import Sbdf.Lemmas.PostSlice
 namespace Sbdf.C08
 open Spec
 
@@ -837,5 +843,130 @@ theorem accepted_rewrite (c : Cfg) (d : Array UInt8) (pos pos' : Nat) (tm : TM)
     rcases foreign_rewrite c p cols slices hok hn' hf fuel hfuel with ⟨e, _, hst⟩ | h
     · exact .inl (by rw [hst]; decide)
     · exact .inr h
+
+
+/-! ### every accepted file -/
+
+/-- every slice the caller loop returned was returned by a successful `sbdf_ts_read` -/
+theorem readSlices_from_readTS (c : Cfg) (n : Nat) (sub : Option (List Bool)) (d : Array UInt8) :
+    ∀ (fuel pos : Nat) (ts : TS), ts ∈ (readSlices c n sub d fuel pos).1 →
+      ∃ p p', readTS c n sub d p = .ok (some ts, p') := by
+  intro fuel
+  induction fuel with
+  | zero => intro pos ts h; simp [readSlices] at h
+  | succ f ih =>
+    intro pos ts h
+    simp only [readSlices] at h
+    split at h
+    · simp at h
+    · simp at h
+    · rename_i t pos' hr
+      simp only [List.mem_cons] at h
+      rcases h with rfl | h
+      · exact ⟨pos, pos', hr⟩
+      · exact ih pos' ts h
+
+theorem map_some_filterMap_id {α : Type} (l : List (Option α)) (h : ∀ o ∈ l, ∃ x, o = some x) :
+    (l.filterMap id).map some = l := by
+  induction l with
+  | nil => rfl
+  | cons o os ih =>
+    obtain ⟨x, rfl⟩ := h o (by simp)
+    simp only [List.filterMap_cons, id, List.map_cons]
+    rw [ih (fun o' ho' => h o' (by simp [ho']))]
+
+/-- C08, foreign clause for whole files: for EVERY byte string that the readers accept to the end
+    (header OK, table metadata OK, every `sbdf_ts_read` OK until end-of-table), provided only that
+    the byte-size header of every string/binary array read fits an `int` (true of every input
+    below 400 MiB) and no stored property count is negative: writing the returned structures
+    back either fails in `sbdf_tm_write`, or produces a file that reads back OK to the same
+    table-level entries, the very same slices, end-of-table at its end, and per column the same
+    value under every name.  Nothing else is assumed about the input. -/
+theorem accepted_file_rewrite (c : Cfg) (d : Array UInt8) (fuel : Nat) (v : Nat × Nat) (tm : TM)
+    (tss : List TS) (e : Nat)
+    (h : readFileF c none fuel d = ⟨.ok v, some (.ok tm), tss, some (.tableEnd e)⟩)
+    (hin : ∀ ts ∈ tss, ∀ x, some x ∈ ts.cols → x.BSOk ∧ 0 ≤ x.propCnt)
+    (fuel' : Nat) (hfuel : tss.length < fuel') :
+    (writeTM c tm).st ≠ .ok ∨
+    (∃ bytes cols', Emits (writeFile c ⟨tm, tss⟩) bytes ∧
+      readFileF c none fuel' bytes.toArray =
+        ⟨.ok (1, 0), some (.ok ⟨tm.table, cols'⟩), tss, some (.tableEnd bytes.length)⟩ ∧
+      All2 (fun (col col' : Md) => ∀ n, (col'.find n).bind (·.value) = (col.find n).bind (·.value))
+        tm.cols cols') := by
+  -- what the successful calls were
+  unfold readFileF at h
+  split at h
+  · simp at h
+  · rename_i v0 pos hfh
+    split at h
+    · simp at h
+    · rename_i tm0 pos' hread
+      simp only [FileResult.mk.injEq, Option.some.injEq, Except.ok.injEq] at h
+      obtain ⟨_, htm, hts, _⟩ := h
+      subst htm
+      -- facts about every slice
+      have hfacts : ∀ ts ∈ tss, ts.cols.length = tm0.cols.length ∧ (tm0.cols.length : Int) * 8 ≤ c.cap ∧
+          (tm0.cols.length : Int) ≤ INT_MAX ∧ ∀ o ∈ ts.cols, ∃ x, o = some x ∧ CS.FitsR c x := by
+        intro ts hmem
+        rw [← hts] at hmem
+        obtain ⟨p, p', hr⟩ := readSlices_from_readTS c _ none d fuel pos' ts hmem
+        exact Post.readTS c _ d p (some ts) p' hr ts rfl
+      let slices : List (List CS) := tss.map (fun ts => ts.cols.filterMap id)
+      have hback : slices.map (fun s => (⟨s.map some⟩ : TS)) = tss := by
+        simp only [slices, List.map_map]
+        have : ∀ ts ∈ tss, ((fun s => (⟨s.map some⟩ : TS)) ∘ (fun ts : TS => ts.cols.filterMap id)) ts = ts := by
+          intro ts hmem
+          simp only [Function.comp]
+          rw [map_some_filterMap_id ts.cols (fun o ho => by
+            obtain ⟨x, hx, _⟩ := (hfacts ts hmem).2.2.2 o ho; exact ⟨x, hx⟩)]
+        rw [List.map_congr_left this]; simp
+      have hlen : ∀ ts ∈ tss, (ts.cols.filterMap id).length = ts.cols.length := by
+        intro ts hmem
+        have := congrArg List.length (map_some_filterMap_id ts.cols (fun o ho => by
+          obtain ⟨x, hx, _⟩ := (hfacts ts hmem).2.2.2 o ho; exact ⟨x, hx⟩))
+        simpa using this
+      have hn : ∀ s ∈ slices, s.length = tm0.cols.length := by
+        intro s hs
+        simp only [slices, List.mem_map] at hs
+        obtain ⟨ts, hmem, rfl⟩ := hs
+        rw [hlen ts hmem]; exact (hfacts ts hmem).1
+      have hf : ∀ s ∈ slices, TSFits c s := by
+        intro s hs
+        simp only [slices, List.mem_map] at hs
+        obtain ⟨ts, hmem, rfl⟩ := hs
+        obtain ⟨h1, h2, h3, h4⟩ := hfacts ts hmem
+        refine ⟨?_, by rw [hlen ts hmem, h1]; exact h2, by rw [hlen ts hmem, h1]; exact h3⟩
+        intro x hx
+        simp only [List.mem_filterMap, id] at hx
+        obtain ⟨o, ho, hox⟩ := hx
+        subst hox
+        obtain ⟨x', hx', hfit⟩ := h4 (some x) ho
+        simp only [Option.some.injEq] at hx'
+        subst hx'
+        obtain ⟨hb, hnn⟩ := hin ts hmem x ho
+        exact CS.fits_of hfit hb hnn
+      have hfl : slices.length < fuel' := by simp only [slices, List.length_map]; exact hfuel
+      rcases accepted_rewrite c d pos pos' tm0 hread slices hn hf fuel' hfl with hw | ⟨bytes, cols', h1, h2, h3⟩
+      · exact .inl hw
+      · rw [hback] at h1 h2
+        exact .inr ⟨bytes, cols', h1, h2, h3⟩
+
+
+/-- non-vacuity of `accepted_file_rewrite`: a concrete byte string the readers accept to the end
+    whose slices meet the two side conditions (evaluated by the kernel) -/
+example :
+    let colMd : Md := ⟨[⟨[78, 97, 109, 101], some ⟨10, [[99]]⟩, none⟩], false⟩
+    let tm : TM := ⟨⟨[], false⟩, [colMd]⟩
+    let cs : CS := ⟨.rle 3 [1, 0] ⟨10, [[120], [121, 122]]⟩, 0, []⟩
+    let d := (writeFile {} ⟨tm, [⟨[some cs]⟩]⟩).bytes.toArray
+    readFileF {} none 5 d = ⟨.ok (1, 0), some (.ok tm), [⟨[some cs]⟩], some (.tableEnd d.size)⟩ ∧
+    (∀ ts ∈ [(⟨[some cs]⟩ : TS)], ∀ x, some x ∈ ts.cols → x.BSOk ∧ 0 ≤ x.propCnt) := by
+  refine ⟨rfl, ?_⟩
+  intro ts hts x hx
+  simp only [List.mem_singleton] at hts
+  subst hts
+  simp only [List.mem_singleton, Option.some.injEq] at hx
+  subst hx
+  exact ⟨⟨fun _ => by decide, by simp⟩, by decide⟩
 
 end Sbdf.C08
